@@ -1057,8 +1057,11 @@ func (p *Parser) parseCastExpression() (*ast.CastExpression, error) {
 	if p.isType(models.TokenTypeLParen) {
 		p.advance() // Consume (
 
-		// Build the full type string including parameters
-		typeParams := "("
+		// Build the full type string including parameters (in a builder: the list is
+		// as long as the input makes it, and += would copy it for every parameter)
+		var typeParams strings.Builder
+		typeParams.WriteString(dataType)
+		typeParams.WriteByte('(')
 		paramCount := 0
 
 		for !p.isType(models.TokenTypeRParen) {
@@ -1066,7 +1069,7 @@ func (p *Parser) parseCastExpression() (*ast.CastExpression, error) {
 				if !p.isType(models.TokenTypeComma) {
 					return nil, p.expectedError(", or )")
 				}
-				typeParams += p.currentToken.Literal
+				typeParams.WriteString(p.currentToken.Literal)
 				p.advance() // Consume comma
 			}
 
@@ -1079,13 +1082,13 @@ func (p *Parser) parseCastExpression() (*ast.CastExpression, error) {
 				)
 			}
 
-			typeParams += p.currentToken.Literal
+			typeParams.WriteString(p.currentToken.Literal)
 			p.advance()
 			paramCount++
 		}
 
-		typeParams += ")"
-		dataType += typeParams
+		typeParams.WriteByte(')')
+		dataType = typeParams.String()
 
 		if !p.isType(models.TokenTypeRParen) {
 			return nil, p.expectedError(")")
